@@ -435,6 +435,9 @@ void getOffsetAndCount(const MultiTag &tag, const DataArray &array, const vector
     if (extents) {
         extent_size = extents.dataExtent();
     }
+    if (indices.empty()) {
+        return; // nothing is requested (e.g. all positions of a multi tag that has none): *max_element of an empty range is undefined
+    }
     ndsize_t max_index = *max_element(indices.begin(), indices.end());
     if (max_index >= positions.dataExtent()[0] || (extents && max_index >= extents.dataExtent()[0])) {
         throw OutOfBounds("Index out of bounds of positions or extents!", 0);
